@@ -664,12 +664,16 @@ func generateKeyPairRule(P *Program, R *Report) {
 	if rk := mustFunc(P, R, rule, kGenRevKP); rk != nil {
 		g := map[string]string{}
 		for _, s := range sinksOf(rk) {
-			g[s.target] = desc(s.val)
+			g[s.target] = descO(s.val)
 		}
 		pub, prv := pkD, "<gabikeys.PrivateKey>"
 		key := "call:signed.GenerateKey()#0"
 		R.decide(rule, kGenRevKP+":G,H", "G and H are independent RandomQR(N) draws", g[pub+".G"] == "call:common.RandomQR("+pub+".N)" && g[pub+".H"] == "call:common.RandomQR("+pub+".N)", g[pub+".G"]+" | "+g[pub+".H"], P.Pos(rk.Pos()))
 		R.decide(rule, kGenRevKP+":ECDSA", "the public ECDSA key is the public half of the generated private key", g[prv+".ECDSA"] == key && g[pub+".ECDSA"] == key+".PublicKey", g[pub+".ECDSA"], P.Pos(rk.Pos()))
+		R.decide(rule, kGenRevKP+":ECDSAString", "each key carries the serialisation of its own half (private: MarshalPrivateKey(key), public: MarshalPublicKey(&key.PublicKey))",
+			g[prv+".ECDSAString"] == "call:(*encoding/base64.Encoding).EncodeToString(global:encoding/base64.StdEncoding,call:signed.MarshalPrivateKey("+key+")#0)" &&
+				g[pub+".ECDSAString"] == "call:(*encoding/base64.Encoding).EncodeToString(global:encoding/base64.StdEncoding,call:signed.MarshalPublicKey("+key+".PublicKey)#0)",
+			g[prv+".ECDSAString"]+" | "+g[pub+".ECDSAString"], P.Pos(rk.Pos()))
 		okCall := false
 		for _, c := range callsIn(fn) {
 			if isCallTo(c, kGenRevKP) {
